@@ -354,9 +354,10 @@ def declared_events(d):
 class Built:
     """A real class plus the factories for its providers."""
 
-    def __init__(self, rt, d):
+    def __init__(self, rt, d, base=None):
         self.rt = rt
         self.d = d
+        self.base = base            # Built of the base class (inheritance), or None
         self.cls = None
         self.provider_methods = {}  # prov -> {name: function}
         self.build()
@@ -364,7 +365,7 @@ class Built:
     def build(self):
         d, rt = self.d, self.rt
         _class_counter[0] += 1
-        clsname = f"{d.get('name', 'M')}_{_class_counter[0]}"
+        clsname = d["fixed_name"] if d.get("fixed_name") else f"{d.get('name', 'M')}_{_class_counter[0]}"
         self.clsname = clsname
         states = {}
         attrs = {}
@@ -372,7 +373,10 @@ class Built:
         funcs = {}
         for c, cb in enumerate(d["cbs"], start=1):
             method, function = make_callback(rt, c, cb)
-            if not d.get("collide_qualnames"):
+            if d.get("collide_qualnames"):
+                method.__qualname__ = f"{clsname}.{cb['name']}"
+                function.__qualname__ = cb["name"]
+            else:
                 # realistic qualified names: <owner class>.<method>; unique per built class so the
                 # library's process-global signature cache cannot mix up unrelated scenarios
                 owner = clsname if cb["prov"] == "sm" else f"P_{cb['prov']}_{_class_counter[0]}"
@@ -398,6 +402,9 @@ class Built:
 
         # states, with inline enter/exit references
         for s in d["states"]:
+            if s.get("inherited"):
+                states[s["id"]] = getattr(self.base.cls, s["id"])   # the base's State object itself
+                continue
             kw = {}
             for g in ("enter", "exit"):
                 refs = [
@@ -422,6 +429,8 @@ class Built:
         # transitions in DSL call order
         tls = {}
         for j, t in enumerate(d["trans"], start=1):
+            if t.get("inherited"):
+                continue
             kw = {}
             mine = [
                 (c, cb) for c, cb in enumerate(d["cbs"], start=1)
@@ -469,7 +478,8 @@ class Built:
         kwargs = {"strict_states": True} if d.get("strict") else {}
         with warnings.catch_warnings(record=True) as w:
             warnings.simplefilter("always")
-            self.cls = StateMachineMetaclass(name, (StateMachine,), attrs, **kwargs)
+            bases = (self.base.cls,) if self.base is not None else (StateMachine,)
+            self.cls = StateMachineMetaclass(name, bases, attrs, **kwargs)
         setattr(vmod, name, self.cls)
         self.warnings = [str(x.message) for x in w]
 
@@ -517,7 +527,12 @@ class Runner:
     def __init__(self, scn, rt=None):
         self.scn = scn
         self.rt = rt or Recorder(scn)
-        self.built = [Built(self.rt, normalize_def(d)) for d in scn["classes"]]
+        lazy = {st["k"] for st in scn["steps"] if st["op"] == "class"}
+        self.built = [None] * len(scn["classes"])
+        for k, d in enumerate(scn["classes"], start=1):
+            normalize_def(d)
+            if k not in lazy:
+                self.build_class(k)
         self.ni = scn.get("ni", 3)
         self.sm = {}        # slot -> machine
         self.models = {}    # slot -> model
@@ -526,9 +541,31 @@ class Runner:
         self.user_models = {}  # slot -> the model object the user supplied (identity check)
         self.inv_tokens = {}
 
+    def build_class(self, k):
+        d = self.scn["classes"][k - 1]
+        base = self.built[d["base"] - 1] if d.get("base") else None
+        self.built[k - 1] = Built(self.rt, d, base)
+
+    def probe_lines(self):
+        """Structure of every class defined so far, read from the class objects."""
+        for k, b in enumerate(self.built, start=1):
+            if b is None:
+                continue
+            cls = b.cls
+            self.rt.emit({"e": "probe", "cls": k,
+                          "states": [s.id for s in cls.states],
+                          "events": [str(e) for e in cls.events],
+                          "allowed": [{"s": s.id, "evs": [str(e) for e in s.transitions.unique_events],
+                                       "tgts": sorted({t.target.id for t in s.transitions})}
+                                      for s in cls.states]})
+
+    def do_class(self, step):
+        self.rt.emit({"e": "class", "cls": step["k"]})
+        self.build_class(step["k"])
+
     # -- token <-> value ------------------------------------------------------------------
     def value_of(self, k, token):
-        d = self.built[k - 1].d
+        d = self.scn["classes"][k - 1]
         if token == "":
             return None
         for s in d["states"]:
@@ -539,7 +576,7 @@ class Runner:
         return token  # invalid value token, stored as is
 
     def token_of(self, k, value):
-        d = self.built[k - 1].d
+        d = self.scn["classes"][k - 1]
         if value is None:
             return ""
         for s in d["states"]:
@@ -569,6 +606,9 @@ class Runner:
                 active = [s.id for s in sm.states if getattr(sm, s.id).is_active]
             except InvalidStateValue:
                 state = "none" if raw is None else "invalid"
+                allowed, active = [], []
+            except Exception as e:  # noqa: BLE001 - reading the public projection must never fail
+                state = "error:" + type(e).__name__
                 allowed, active = [], []
             if sm.current_state_value is not raw and sm.current_state_value != raw:
                 state = "mismatch"
@@ -814,13 +854,18 @@ class Runner:
         self.ret_line(i, ("ret", r), cmp=api != "activate")
 
     def run_sync(self):
+        probes = self.scn.get("probes", False)
         for step in self.scn["steps"]:
-            if step["op"] == "new":
+            if step["op"] == "class":
+                self.do_class(step)
+            elif step["op"] == "new":
                 self.do_new(step)
             else:
                 if step["i"] not in self.sm:
                     continue
                 self.do_call(step)
+            if probes:
+                self.probe_lines()
 
     def run_threads_in_turn(self):
         """Every step on its own loop-less thread, one after the other."""
@@ -846,7 +891,9 @@ class Runner:
 
     async def run_inloop(self):
         for step in self.scn["steps"]:
-            if step["op"] == "new":
+            if step["op"] == "class":
+                self.do_class(step)
+            elif step["op"] == "new":
                 self.do_new(step)
             else:
                 if step["i"] not in self.sm:
